@@ -190,6 +190,10 @@ def run_property(prop, tier, harnesses, level, explanation, assumptions, outside
     seed = int(os.environ.get("VERIF_SEED", "1"))
     ensure_engine()
     deadline = quick_deadline if tier == "quick" else thorough_deadline
+    if tier != "quick":
+        for h in harnesses:
+            if "-anfcheck" not in h.flags:
+                h.flags = h.flags + ["-anfcheck"]
     results = []
     if parallel > 1:
         # harnesses with few paths cannot use many workers: run several side by side
@@ -203,7 +207,7 @@ def run_property(prop, tier, harnesses, level, explanation, assumptions, outside
     known = [k for k in known_findings() if k["property"] == prop]
     violations, inconcl, lines = [], [], []
     agg = dict(paths=0, obligations=0, discharged=0, trivial=0, unknown=0, queries=0, solver_s=0.0, distinct=0,
-               merged=0, forks=0)
+               merged=0, forks=0, anf=0, anf_ok=0, anf_unk=0)
     funcs, stubs, bounds, samples, reach = {}, {}, [], [], {}
     per_h = []
     for r in results:
@@ -215,6 +219,9 @@ def run_property(prop, tier, harnesses, level, explanation, assumptions, outside
         agg["obligations"] += res["obligations"]
         agg["discharged"] += res["discharged"]
         agg["trivial"] += res["trivially_true"]
+        agg["anf"] += res.get("discharged_by_anf", 0)
+        agg["anf_ok"] += res.get("anf_confirmed_by_smt", 0)
+        agg["anf_unk"] += res.get("anf_smt_unknown", 0)
         agg["unknown"] += res["unknown"]
         agg["queries"] += res["solver_queries"]
         agg["solver_s"] += res["solver_time_s"]
@@ -241,6 +248,7 @@ def run_property(prop, tier, harnesses, level, explanation, assumptions, outside
             inconcl.append("%s: %s" % (h.name, x[:700]))
         per_h.append({"harness": h.name, "what": h.desc, "paths": res["paths"], "obligations": res["obligations"],
                       "discharged": res["discharged"], "trivially_true": res["trivially_true"],
+                      "discharged_by_gf2_normal_form": res.get("discharged_by_anf", 0),
                       "solver_queries": res["solver_queries"], "solver_time_s": round(res["solver_time_s"], 2),
                       "wall_s": round(res["wall_s"], 2), "path_ends": res.get("path_ends"),
                       "unwind_cap": res.get("unwind_cap")})
@@ -299,6 +307,12 @@ def run_property(prop, tier, harnesses, level, explanation, assumptions, outside
         "obligations": agg["obligations"],
         "discharged": agg["discharged"],
         "trivially_true_by_simplifier": agg["trivial"],
+        "discharged_by_gf2_normal_form": agg["anf"],
+        "gf2_normal_form_note": "obligations that are polynomial identities over GF(2) (xor/and algebra of shares) are decided by the engine's algebraic-normal-form procedure "
+                                "(anf.go; exact for the Boolean structure, atoms treated as independent unknowns, path-condition equalities used as substitutions); it is "
+                                "differentially tested against exhaustive evaluation (anf_test.go) and, in the thorough tier, every such verdict is re-checked by z3",
+        "gf2_verdicts_confirmed_by_z3": agg["anf_ok"],
+        "gf2_verdicts_z3_unknown": agg["anf_unk"],
         "solver_unknown": agg["unknown"],
         "paths_explored": agg["paths"],
         "merged_regions": agg["merged"],
